@@ -200,6 +200,21 @@ func runC17(c *Ctx) {
 				}
 				ok0, _ := allOriginsAfter(rd, ci, resOf(ret, 0), oIsValue(resultOf(ci.(*ssa.Call), 0)))
 				ok1, _ := allOriginsAfter(rd, ci, resOf(ret, 1), oIsValue(resultOf(ci.(*ssa.Call), 1)))
+				if phi, isPhi := resOf(ret, 0).(*ssa.Phi); !ok0 && isPhi {
+					// a count forced to 0 on the edge "the count is negative" (which the io.Reader contract rules out)
+					cnt := resultOf(ci.(*ssa.Call), 0)
+					isCnt := func(v ssa.Value) bool { return v == cnt }
+					ok0 = true
+					for i, e := range phi.Edges {
+						if e == cnt {
+							continue
+						}
+						k, isK := constInt(e)
+						if !(isK && k == 0 && edgeGuarded(phi.Block().Preds[i], phi.Block(), nil, factNegative(isCnt))) {
+							ok0 = false
+						}
+					}
+				}
 				c.obI("R17.1", ret, "read-returns-delegate-results", ok0 && ok1, "Read returns the buffered reader's count and error unchanged", "")
 			}
 		}
